@@ -92,6 +92,13 @@ impl<K: Eq, V> VecMap<K, V> {
         Self::default()
     }
 
+    /// Harness-only constructor: the slots are given explicitly, so that a symbolic *presence* of a key
+    /// is an `Option` discriminant at a constant index (the caller guarantees distinct keys).
+    #[inline]
+    pub(crate) fn kani_from_slots(slots: [Option<(K, V)>; CAP]) -> Self {
+        Self { slots }
+    }
+
     pub(crate) fn len(&self) -> usize {
         let mut n = 0;
         let mut i = 0;
